@@ -21,7 +21,7 @@ from . import coqlit as L
 from .core import Relation, err_kind
 
 PROP = "C19"
-CLAIMED = False
+CLAIMED = True
 COQ_MODULES = ["C19_Check", "C19_Proofs"]
 PROPERTY_MODULE = "C19_Property"
 ALLOWED_AXIOMS = []
